@@ -79,6 +79,10 @@ def step (toks : List String) (impl : String) : Res :=
   match toks.head? with
   | some "findnodes" => stepResponder toks impl
   | some "nodesresp" => stepAsker toks impl
+  | some "fnseeding" =>
+    -- the table is still seeding: its boot nodes were never liveness-checked, so none of them is offered
+    { model := "offered=0", monitor := if impl == "offered=0" then [] else ["only_liveness_checked_entries_while_seeding"],
+      tags := ["fnseeding", s!"intable{kvNat toks "intable"}"] }
   | some "concfindnodes" =>
     -- replies built at the same time for askers with different distances: each holds only records at ITS requested distance
     { model := "badreplies=0 badrecords=0",
